@@ -177,6 +177,7 @@ pub fn run(args: &Args) -> i32 {
     // (1) default display modes, full privacy alphabet
     {
         let depth = if tier == Tier::Thorough { 6 } else { 4 };
+        explore::set_phase_slice((tier == Tier::Thorough).then_some(180));
         let r = explore::bfs(&wide, &alphabet(), &[], depth, if tier == Tier::Thorough { 80_000 } else { 6_000 }, mk);
         states += r.states;
         transitions += r.transitions;
@@ -203,6 +204,7 @@ pub fn run(args: &Args) -> i32 {
             al.extend(traces.into_iter().map(|t| Ev::Trace(t, 0)));
             let al = crate::c17::with_races(&al);
             let depth = if tier == Tier::Thorough { 16 } else { 10 };
+            explore::set_phase_slice((tier == Tier::Thorough).then_some(180));
             let r = explore::bfs(&rich, &al, &[], depth, if tier == Tier::Thorough { 100_000 } else { 3_000 }, mk);
             states += r.states;
             transitions += r.transitions;
@@ -235,6 +237,7 @@ pub fn run(args: &Args) -> i32 {
                     ..WorldCfg::default()
                 };
                 let depth = if tier == Tier::Thorough { 4 } else { 3 };
+                explore::set_phase_slice((tier == Tier::Thorough).then_some(180));
                 let r = explore::bfs(&cfg, &small_alphabet(), &root, depth, 20_000, mk);
                 states += r.states;
                 transitions += r.transitions;
@@ -313,6 +316,10 @@ pub fn run(args: &Args) -> i32 {
     rep.set("frames_redrawn_at_other_sizes", json!(redraws));
     rep.set("positive_half_checks", json!(positive));
     rep.set("phases", json!(phases));
+    rep.set("searches_cut_short_by_their_time_slice", json!(explore::phases_cut()));
+    if explore::phases_cut() > 0 {
+        rep.cap_hit.get_or_insert(format!("{} search phase(s) ended at their 3-minute time slice (thorough tier); what each covered is in `phases`", explore::phases_cut()));
+    }
     rep.set("rule", json!("same engine as C17 (real TuiApp/render/Tracer, replayed histories, BFS de-duplicated on the canonical key). Every hop address has a recognisable address, hostname, AS number/name/prefix/registry and GeoIP city/region/country/continent/coordinates/postal code (seeded DNS cache, generated MaxMind fixture; hops 3 and 4 share one GeoIP location - text shared with a hop that may be shown is not counted, except in the map view when the info panel describes a hidden hop). After EVERY draw every row of the TestBackend buffer is searched for the 6-character prefix of every secret of every responding hop with TTL <= n (all flows) and for the source address/hostname. (1) 23-event alphabet (privacy, details, selection, map/chart/flows, address modes, AS toggle, hosts, settings/help, freeze, 4 trace updates) to the depth bound; (1b) three small alphabets (privacy x details, privacy x map/chart, privacy x flows x freeze x clear) searched to depth 10 / 16 towards their fixpoints; (2) 6 AS modes x 4 GeoIP modes x 3 address modes with rotating initial n from a populated multi-flow trace; (3) positive half at 140 columns: hops above n show their address; (4) reached states re-drawn at other sizes with the oracle on each frame. Keyboard half: every expand/contract_privacy step in the search is compared with off -> 0 -> .. -> hop count"));
     rep.sample(json!({"config": "as-mode name, geoip long, address both, privacy 2", "history": ["trace0:Path3", "trace0:Branch", "trace0:Path5", "key:toggle_hop_details", "key:next_hop", "key:next_hop_address"]}));
     rep.assumptions = vec!["the user-supplied target in the header/tabs is not a hop and is exempt (DESIGN.md 5.7)".into(), "secrets are recognised by unique 6-character prefixes that are not substrings of any locale string".into()];
